@@ -3,6 +3,7 @@ import Zc.Proofs.SurviveComp
 import Zc.Proofs.SurviveLive
 import Zc.Proofs.SurviveTimersC
 import Zc.Proofs.SurviveFlush
+import Zc.Proofs.BitmapIters
 import Zc.Props.C15Route
 import Zc.Props.C02
 /-! # C15 — a running instance survives any datagram stream
@@ -554,6 +555,13 @@ theorem C15_history_all_timers_partial {β : Type} (glue : TextGlue) (hB : Route
     (otherF_ok lower ettl I₀ sz glue other' hO) bs (State.init d0) h0 (LInv.init d0)
 
 end flush
+
+/-- **`_read_bitmap` does linear work per call** (C02 review F5): entered at offset `off` of a datagram of `len` bytes it runs
+its `while` loop at most `(len − off)/2 + 1` times and its inner byte loop at most `len − off` times in total, whatever `end` the
+rdlength field claims.  Stage C compares both counters with the real code on every `_read_bitmap` call of the fuzz streams. -/
+theorem C15_bitmap_work (buf : Bytes) (off end_ : Nat) :
+    (DecodeLib.bitmapWork buf off end_).1 ≤ (buf.length - off) / 2 + 1 ∧ (DecodeLib.bitmapWork buf off end_).2 ≤ buf.length - off :=
+  DecodeLib.readBitmapC_bound buf end_ (buf.length + 1) { off := off }
 
 /-- the full-strength statement of DESIGN §7 (no hypotheses on the downstream components): not proved
 here — it needs the C03/C05/C06/C04/C12 models composed into one `Down` instance. -/
